@@ -69,6 +69,25 @@ type Case struct {
 	Refs    []int64 `json:"refs,omitempty"`
 	KRange  int64   `json:"krange,omitempty"`
 	KOffset int64   `json:"koffset,omitempty"`
+	// kernel:table cases
+	KTable *TableCase `json:"ktable,omitempty"`
+}
+
+// TableCase: the join indexes of one binary operator and a sequence of steps.
+type TableCase struct {
+	Card  int         `json:"card"` // 0 one-to-one, 1 many-to-one, 2 one-to-many
+	Op    string      `json:"op"`
+	Bool  bool        `json:"bool"`
+	N     int         `json:"n"`    // number of output slots
+	High  []int       `json:"high"` // output of each high-cardinality series, -1 = none
+	Low   [][]int     `json:"low"`  // outputs of each low-cardinality series
+	Steps []TableStep `json:"steps"`
+}
+
+type TableStep struct {
+	T   int64      `json:"t"`
+	Lhs [][2]int64 `json:"lhs"` // (sample id, value as small integer)
+	Rhs [][2]int64 `json:"rhs"`
 }
 
 func (c *Case) Instant() bool { return c.Step == 0 }
